@@ -2,13 +2,13 @@
 (* Exhaustive TLC run of TelnetNeg: all policies of both sides, all request
    sequences up to MaxReq requests, all interleavings with message deliveries. *)
 EXTENDS TelnetNeg, TLC
-CONSTANTS NOpt, MaxReq
+CONSTANTS NOpt, MaxReq, Reent
 Pol == [E2 -> [1..NOpt -> BOOLEAN]]
-Init == \E al \in Pol, ar \in Pol : InitWith([nopt |-> NOpt, accL |-> al, accR |-> ar, maxreq |-> MaxReq])
+Init == \E al \in Pol, ar \in Pol : InitWith([nopt |-> NOpt, accL |-> al, accR |-> ar, maxreq |-> MaxReq, reent |-> Reent])
 Spec == Init /\ [][Next]_vars
-View == <<cfg, us, him, obs>>
+View == <<cfg, us, him, obs, reent>>
 (* liveness: deliveries are fair, requests are not (at most MaxReq are ever issued) *)
-FairSpec == Init /\ [][Next]_vars /\ \A e \in E2 : WF_vars(Recv(e))
+FairSpec == Init /\ [][Next]_vars /\ (\A e \in E2 : WF_vars(Recv(e))) /\ WF_vars(reent # <<>> /\ Next)
 Terminates == <>[]Quiescent
 EveryRequestFires == \A i \in 1..MaxReq : [](Len(obs.status) >= i => <>(Len(obs.status) >= i /\ obs.status[i] = "done"))
 =============================================================================
